@@ -39,6 +39,25 @@ partial def valOf (memo : List (Nat × Val)) (x : Sexp) : Val × List (Nat × Va
     (.struct out, m)
   | _ => (.nil, memo)
 
+/-- Go iterates a map in an unspecified order, so when several entries of a map fail, which failure the call reports is
+    not determined.  `rotMaps` rotates the entry list of every map of an input value; the rotation amounts are the digits
+    of `k` in the mixed radix of the map sizes (state: remaining `k`, number of variants so far, capped).  The harness asks
+    for the other variants only after the implementation and the model disagree on a failing call. -/
+partial def rotMaps (v : Val) : StateM (Nat × Nat) Val := do
+  match v with
+  | .ptr l x => return .ptr l (← rotMaps x)
+  | .slice l xs => return .slice l (← xs.mapM rotMaps)
+  | .arr xs => return .arr (← xs.mapM rotMaps)
+  | .struct fs => return .struct (← fs.mapM (fun (n, x) => do pure (n, ← rotMaps x)))
+  | .map l kvs =>
+    let kvs' ← kvs.mapM (fun (a, b) => do pure (← rotMaps a, ← rotMaps b))
+    let n := kvs'.length
+    if n < 2 then return .map l kvs' else
+    let (k, prod) ← get
+    set (k / n, min (prod * n) 100000)
+    return .map l (kvs'.rotateLeft (k % n))
+  | x => return x
+
 /-- printing state: fresh locations renumbered by first occurrence -/
 structure PSt where
   seen : List Nat := []
@@ -119,15 +138,20 @@ def handleEval (req : Sexp) : Sexp :=
       | _ => false
     let sem : CustomSem := { failsOn := failsOn, isCtor := fun fn => "New".toList.isPrefixOf fn }
     let prog : Program := { conv := gc.conv, methods := ms, sem := sem }
+    let mapRot : Option Nat := (fieldArgs req "maprot").head?.map asNat
     let wantSpec := (fieldArgs req "spec").any (fun x => asString x == "structural")
     let outs := (fieldArgs req "calls").map (fun cl =>
       match args cl with
       | name :: vs =>
         match ms.findIdx? (fun m => m.explicit && m.name == sOf name) with
         | some mi =>
-          let (vals, _) := vs.foldl (fun (acc : List Val × List (Nat × Val)) y => let (v, m) := valOf acc.2 y; (acc.1 ++ [v], m)) ([], [])
+          let (vals0, _) := vs.foldl (fun (acc : List Val × List (Nat × Val)) y => let (v, m) := valOf acc.2 y; (acc.1 ++ [v], m)) ([], [])
+          let (vals, variants) := match mapRot with
+            | none => (vals0, 1)
+            | some k => let (xs, st) := (vals0.mapM rotMaps).run (k, 1); (xs, st.2)
           let out := runMethod prog mi vals
-          let base := mkList "r" [outcomeOut out]
+          let base := if mapRot.isSome then mkList "r" [outcomeOut out, mkList "mapvariants" [.atom (toString variants)]]
+                      else mkList "r" [outcomeOut out]
           if !wantSpec then base else
           match ms[mi]? with
           | none => base
